@@ -227,7 +227,14 @@ func (r *Transport) writeLoop() {
 					r.mu.Lock()
 					if reconnectErr := r.reconnect(tr); reconnectErr != nil {
 						r.mu.Unlock()
-						writeOrDone(r.ctx, writeRes{err: fmt.Errorf("reconnect cause[%v]: %w", err, reconnectErr)}, r.writeResCh[data.id])
+						r.writeResMu.RLock()
+						resCh, ok := r.writeResCh[data.id]
+						r.writeResMu.RUnlock()
+						if ok {
+							writeOrDone(r.ctx, writeRes{err: fmt.Errorf("reconnect cause[%v]: %w", err, reconnectErr)}, resCh)
+						}
+						// the redial budget is exhausted: fail pending and later writes instead of leaving them blocked.
+						r.cancel()
 						return
 					}
 					r.mu.Unlock()
